@@ -69,10 +69,22 @@ def special_samples(rng, n):
     return x
 
 
+def count_samples(rng, n):
+    """Whole-number samples as raw recordings hold them (digitiser counts), in any unit: small counts, counts beyond
+    2^53 and 2^63 (every such double is a whole number), with negative zeros (polarity-reversed zero counts)."""
+    x = np.rint(rng.standard_normal(n) * float(rng.choice([3.0, 2e4, 1e9])))
+    x = x * float(rng.choice([1.0, 1.0, 1e16, 2.0 ** 70, 1e300]))
+    if rng.random() < 0.5:
+        x = -x                      # zeros become -0.0
+    return x
+
+
 def gen_recording(rng, wild=True, n=None):
     n = int(n if n is not None else rng.choice([16, 64, 300, 1000, 4000, 10000]))
     dt = float(rng.choice([0.001, 0.004, 0.005, 0.01, 0.02, 1 / 75, 1 / 150, 0.0078125]))
     mk = (lambda: special_samples(rng, n)) if wild else (lambda: gen.signal(rng, n) * float(10 ** rng.uniform(-3, 3)))
+    if wild and rng.random() < 0.4:
+        mk = lambda: count_samples(rng, n)
     deg = float(rng.choice([0., 90., 359.999, 360., -30., 400., float(rng.uniform(-720, 1080))]))
     meta = {"site": "STN", "nested": {"list": [1, 2.5, None], "tuple": (1, 2)}, "value": float(rng.random())} if rng.random() < 0.6 else None
     return gen.make_recording(mk(), mk(), mk(), dt, degrees_from_north=deg, meta=meta), n, dt
